@@ -9,6 +9,7 @@ import (
 	"context"
 	"fmt"
 	"os"
+	"os/exec"
 	"path/filepath"
 	"runtime"
 	"strconv"
@@ -87,6 +88,70 @@ func fsState(dir, base string) string {
 	return fmt.Sprintf("L%dR%d", lock, rl)
 }
 
+// realProcesses starts N real csvq processes that each run K read-modify-write transactions on one
+// table; every committed increment must survive, and nothing may be left behind.
+func realProcesses(o *hc.Out, g *hc.Gen, bin, scratch string, rounds int) {
+	for r := 0; r < rounds; r++ {
+		d := filepath.Join(scratch, fmt.Sprintf("c09p-%d", r))
+		_ = os.RemoveAll(d)
+		_ = os.MkdirAll(d, 0o755)
+		_ = os.WriteFile(filepath.Join(d, "cnt.csv"), []byte("n\n0\n"), 0o644)
+		nproc, k := 3+g.Intn(6), 2+g.Intn(4)
+		var wg sync.WaitGroup
+		var mtx sync.Mutex
+		ok, timeouts, other := 0, 0, []string{}
+		for p := 0; p < nproc; p++ {
+			wg.Add(1)
+			go func(p int) {
+				defer wg.Done()
+				for i := 0; i < k; i++ {
+					stmt := "UPDATE cnt SET n = n + 1; COMMIT;"
+					if (p+i)%3 == 0 {
+						stmt = "SELECT n FROM cnt; UPDATE cnt SET n = n + 1; COMMIT;" // read first, then update (reload under the lock)
+					}
+					cmd := exec.Command(bin, "--repository", d, "--quiet", "--wait-timeout", "20", stmt)
+					cmd.Dir = d
+					cmd.Env = append(os.Environ(), "HOME="+d)
+					out, err := cmd.CombinedOutput()
+					mtx.Lock()
+					switch {
+					case err == nil:
+						ok++
+					case strings.Contains(string(out), "lock") && strings.Contains(string(out), "timeout"):
+						timeouts++
+					default:
+						other = append(other, string(out))
+					}
+					mtx.Unlock()
+				}
+			}(p)
+		}
+		wg.Wait()
+		b, _ := os.ReadFile(filepath.Join(d, "cnt.csv"))
+		lines := strings.Fields(string(b))
+		final := -1
+		if len(lines) == 2 {
+			final, _ = strconv.Atoi(lines[1])
+		}
+		rep := map[string]interface{}{"processes": nproc, "transactions_each": k, "committed": ok, "lock_timeouts": timeouts, "final_count": final, "file": string(b)}
+		if final != ok {
+			o.Law("lost_update_real_processes", rep)
+		}
+		if len(other) > 0 {
+			rep["errors"] = other
+			o.Law("unexpected_error_real_processes", rep)
+		}
+		if st := fsState(d, "cnt.csv"); st != "L0R0" {
+			rep["state"] = st
+			o.Law("control_files_left", rep)
+		}
+		o.Eval()
+		o.NonTrivial(fmt.Sprintf("real:%d:%d:%d:%d", nproc, k, ok, timeouts))
+		o.Count("real_process_rounds")
+		_ = os.RemoveAll(d)
+	}
+}
+
 func run(seed int64, n int, dir string, _ []string) {
 	g := hc.NewGen(seed)
 	o := hc.NewOut(dir)
@@ -94,6 +159,9 @@ func run(seed int64, n int, dir string, _ []string) {
 	scratch := os.Getenv("VERIF_SCRATCH")
 	if scratch == "" {
 		scratch = os.TempDir()
+	}
+	if bin := os.Getenv("VERIF_CSVQ"); bin != "" {
+		realProcesses(o, g, bin, scratch, 2+n/400)
 	}
 	for it := 0; it < n; it++ {
 		nproc := 2 + g.Intn(2)
